@@ -89,7 +89,7 @@ fn parse_struct_internal(
         if let ir::TypeLayer::Struct(parent_sid) =
             context.module.type_registry.get_type_layer(parent_id)
         {
-            base_structs.push(parent_sid);
+            base_structs.push((parent_sid, parent.location));
         } else {
             return Err(TyperError::IllegalStructBaseType(parent.location));
         }
@@ -113,7 +113,7 @@ fn parse_struct_internal(
     let mut method_map = HashMap::<_, Vec<_>>::new();
 
     // Add members from base types
-    for base_struct in base_structs {
+    for (base_struct, base_location) in base_structs {
         let base_def = &context.module.struct_registry[base_struct.0 as usize];
 
         if !base_def.members.is_empty() {
@@ -127,7 +127,7 @@ fn parse_struct_internal(
         }
 
         if !base_def.methods.is_empty() {
-            todo!("Inherited methods are not implemented");
+            return Err(TyperError::StructBaseTypeHasMethods(base_location));
         }
     }
 
